@@ -10,7 +10,7 @@ package ledger
 // with real ed25519 keys) is driven through the real evaluator exactly as data/pools' AssembleBlock drives it
 // (Ledger.StartEvaluator(MakeBlock(prev)) → TransactionGroup per group, failing groups dropped → GenerateBlock(participating)
 // → UnfinishedBlock.FinishBlock(seed, proposer, eligible)).  The finished block is then validated by the real
-// Ledger.Validate / eval.Eval in many configurations (real execution pool, 1- and 3-worker pools with seeded jitter, warm
+// Ledger.Validate / eval.Eval in many configurations (real execution pool, 1-, 3- and 7-worker pools with seeded jitter, a slow pool, warm
 // verified-transaction cache, signatures mocked, prefetcher off, validate=false as AddBlock evaluates, ledger A reloaded /
 // reopened from disk, the independent ledger B) and the canonical dump of the resulting StateDelta is printed for each;
 // single-field mutations of the header / payset must be rejected; finally the block is added to both ledgers.
@@ -144,7 +144,7 @@ type c20Task struct {
 	out chan any
 }
 
-func c20MakePool(workers int, seed uint64) *c20Pool {
+func c20MakePool(workers int, seed uint64, maxDelayMicros int) *c20Pool {
 	p := &c20Pool{in: make(chan c20Task), workers: workers}
 	for w := 0; w < workers; w++ {
 		p.wg.Add(1)
@@ -152,7 +152,7 @@ func c20MakePool(workers int, seed uint64) *c20Pool {
 		go func() {
 			defer p.wg.Done()
 			for t := range p.in {
-				time.Sleep(time.Duration(r.Intn(300)) * time.Microsecond)
+				time.Sleep(time.Duration(maxDelayMicros/2+r.Intn(maxDelayMicros/2+1)) * time.Microsecond)
 				res := t.f(t.arg)
 				if t.out != nil {
 					t.out <- res
@@ -574,7 +574,7 @@ func (h *c20H) gen(op string) string {
 	ub, err := h.ev.GenerateBlock(part)
 	h.ev = nil
 	if err != nil {
-		return "gen-error " + lcClassify(err) + " " + strings.ReplaceAll(err.Error(), " ", "_")
+		return "gen-error " + c20Reject(err) + " " + strings.ReplaceAll(c20Short(err.Error()), " ", "_")
 	}
 	h.maxPay = ub.UnfinishedBlock().ProposerPayout().Raw
 	prpAddr := c20Addr(prp)
@@ -733,14 +733,14 @@ func (h *c20H) validateCfg(name string, blk bookkeeping.Block) (*ledgercore.Stat
 			return nil, err
 		}
 		d := vb.Delta()
-		if h.vb == nil && name != "replica" {
+		if h.vb == nil && name != "replica" && blk.Hash() == h.blk.Hash() {
 			h.vb = vb
 		}
 		return &d, nil
 	}
-	custom := func(workers int, seed uint64) (*ledgercore.StateDelta, error) {
+	custom := func(workers int, seed uint64, delay int) (*ledgercore.StateDelta, error) {
 		h.freshCache()
-		p := c20MakePool(workers, seed)
+		p := c20MakePool(workers, seed, delay)
 		bl := execpool.MakeBacklog(p, 0, execpool.LowPriority, nil)
 		defer func() { bl.Shutdown(); p.Shutdown() }()
 		return one(h.a.Validate(ctx, blk, bl))
@@ -752,11 +752,13 @@ func (h *c20H) validateCfg(name string, blk bookkeeping.Block) (*ledgercore.Stat
 	case name == "warm":
 		return one(h.a.Validate(ctx, blk, h.realPool))
 	case name == "w1":
-		return custom(1, uint64(blk.Round()))
+		return custom(1, uint64(blk.Round()), 300)
+	case name == "slow1": // the signature checks finish long after the transaction loop
+		return custom(1, uint64(blk.Round()), 30000)
 	case strings.HasPrefix(name, "w3s"):
-		return custom(3, vh.U(name[3:]))
+		return custom(3, vh.U(name[3:]), 300)
 	case strings.HasPrefix(name, "w7s"):
-		return custom(7, vh.U(name[3:]))
+		return custom(7, vh.U(name[3:]), 300)
 	case name == "nosig":
 		return one(validateWithoutSignatures(h.t, h.a, blk))
 	case name == "nopf":
@@ -883,6 +885,15 @@ func (h *c20H) mutate(op string) string {
 		}
 		b.Payset = ps
 		recommit()
+	case "sig":
+		// a corrupted signature (the commitments are recomputed: they cover the signature)
+		if int(arg) >= len(b.Payset) {
+			return "bad-op"
+		}
+		ps := append(transactions.Payset{}, b.Payset...)
+		ps[arg].Sig[int(arg)%64] ^= 0x40
+		b.Payset = ps
+		recommit()
 	case "droplast":
 		if len(b.Payset) == 0 {
 			return "bad-op"
@@ -899,6 +910,22 @@ func (h *c20H) mutate(op string) string {
 		b.FeeSink = c20Addr(arg)
 	default:
 		return "bad-op"
+	}
+	if f[1] == "sig" {
+		// the verdict must not depend on how the signature checks are scheduled: real pool, then slow 1- and 3-worker pools
+		// (the evaluation loop finishes long before they do); a fresh verified-transaction cache each time
+		cls := ""
+		for _, cn := range []string{"real", "slow1", "w3s" + strconv.FormatUint(arg, 10)} {
+			d, err := h.validateCfg(cn, b)
+			if err == nil {
+				return "ACCEPTED[" + cn + "] " + c20Delta(*d, true)
+			}
+			if cls == "" {
+				cls = c20Reject(err)
+			}
+		}
+		h.freshCache()
+		return "rejected " + cls
 	}
 	vb, err := h.a.Validate(context.Background(), b, h.realPool)
 	if err != nil {
@@ -935,6 +962,9 @@ func (h *c20H) stateDigest(l *Ledger) string {
 	hdr, _ := l.BlockHdr(rnd)
 	hh := hdr.Hash()
 	parts = append(parts, fmt.Sprintf("hdr %x", hh[:]))
+	if os.Getenv("VERIF_C20_DEBUG") != "" {
+		fmt.Fprintf(os.Stderr, "STATE %p rnd=%d\n%s\n", l, rnd, strings.Join(parts, "\n"))
+	}
 	sum := sha256.Sum256([]byte(strings.Join(parts, "\n")))
 	return hex.EncodeToString(sum[:10])
 }
@@ -1098,7 +1128,7 @@ func (g *c20Gen) genesis(c int) (string, string) {
 	return sb.String(), proto
 }
 
-var c20Cfgs = []string{"real", "warm", "w1", "w3s", "w7s", "nosig", "nopf", "add", "addnopf", "replica", "cold"}
+var c20Cfgs = []string{"real", "warm", "w1", "slow1", "w3s", "w7s", "nosig", "nopf", "add", "addnopf", "replica", "cold"}
 
 func TestVerifC20(t *testing.T) {
 	t.Chdir(t.TempDir())
@@ -1128,7 +1158,7 @@ func TestVerifC20(t *testing.T) {
 	}
 	rng := vh.NewRng(vh.Seed()*7919 + 20)
 	g := &c20Gen{r: rng, h: h}
-	cases := vh.Budget(12, 600)
+	cases := vh.Budget(12, 300)
 	profiles := []string{"c18", "c19", "c21", "c22"}
 	if p := os.Getenv("VERIF_C20_PROFILE"); p != "" {
 		profiles = []string{p}
@@ -1223,7 +1253,7 @@ func TestVerifC20(t *testing.T) {
 					continue
 				}
 				pct := 45
-				if cn == "cold" {
+				if cn == "cold" || cn == "slow1" {
 					pct = 15 // reloading / reopening a ledger re-allocates its 100000-entry account caches: sampled less often
 				}
 				if rng.Chance(pct) {
@@ -1336,6 +1366,7 @@ func (g *c20Gen) mutations(r *vh.Rng) []string {
 		add(fmt.Sprintf("adclose %d", r.Intn(len(b.Payset))))
 		add(fmt.Sprintf("adasset %d", r.Intn(len(b.Payset))))
 		add("droplast")
+		add(fmt.Sprintf("sig %d", r.Intn(len(b.Payset))))
 	}
 	add("ts-")
 	add("genhash")
